@@ -12,7 +12,7 @@ MutatorsOf(c) ==
     CASE c = "sheet"         -> {"cssText", "insertRule", "add", "deleteRule", "encoding", "nsset", "nsdel"}
       [] c = "stylerule"     -> {"cssText", "selectorText", "styleText"}
       [] c = "mediarule"     -> {"cssText", "insertRule", "add", "deleteRule", "mediaText"}
-      [] c = "pagerule"      -> {"cssText", "selectorText", "styleText", "insertRule"}
+      [] c = "pagerule"      -> {"cssText", "selectorText", "styleText", "insertRule", "add", "deleteRule"}
       [] c = "importrule"    -> {"cssText", "mediaText", "href"}
       [] c = "namespacerule" -> {"cssText", "prefix", "namespaceURI"}
       [] c = "charsetrule"   -> {"cssText", "encoding"}
@@ -21,15 +21,16 @@ MutatorsOf(c) ==
       [] c = "unknownrule"   -> {"cssText"}
       [] c = "variablesrule" -> {"cssText", "variablesText"}
       [] c = "marginrule"    -> {"cssText", "margin", "styleText"}
-      [] c = "declaration"   -> {"cssText", "setProperty", "setPropertyPriority", "removeProperty"}
+      [] c = "declaration"   -> {"cssText", "setProperty", "setPropertyPriority", "removeProperty", "setitem", "delitem", "attrset", "attrdel"}
+      [] c = "variablesdecl" -> {"cssText", "setVariable", "removeVariable", "setitem", "delitem"}
       [] c = "property"      -> {"cssText", "name", "value", "priority"}
       [] c = "value"         -> {"cssText"}
-      [] c = "selectorlist"  -> {"selectorText", "appendSelector"}
+      [] c = "selectorlist"  -> {"selectorText", "appendSelector", "append", "setitem"}
       [] c = "selector"      -> {"selectorText"}
-      [] c = "medialist"     -> {"mediaText", "appendMedium", "deleteMedium"}
+      [] c = "medialist"     -> {"mediaText", "appendMedium", "append", "deleteMedium", "setitem"}
       [] c = "mediaquery"    -> {"mediaText", "mediaType"}
 Classes == {"sheet", "stylerule", "mediarule", "pagerule", "importrule", "namespacerule", "charsetrule", "fontfacerule",
-            "comment", "unknownrule", "variablesrule", "marginrule", "declaration", "property", "value", "selectorlist",
+            "comment", "unknownrule", "variablesrule", "marginrule", "declaration", "variablesdecl", "property", "value", "selectorlist",
             "selector", "medialist", "mediaquery"}
 \* where in the new content the offending part sits
 Stages == {"immediate",     \* the very first token / the argument as a whole is unacceptable
